@@ -40,6 +40,7 @@ structure ClassSchema where
   autoClaim : List String
   iterChildren : List String
   props : List (String × String × List String)
+  pivotDecorators : List (String × List String)
 deriving Repr
 
 def fieldNames (c : ClassSchema) : List String := c.fields.map (·.name)
@@ -147,8 +148,15 @@ def fromChildrenCanonical (c : ClassSchema) : Bool :=
   mentioned.length == c.fields.length &&
   c.fromChildrenReattach == fieldNames c
 
+/-- Pivots are recomputed from the current fields on every use: each `_x_pivot` is a plain
+`custom_property`, never a cached one (an insertion point cached across edits of the earlier siblings is
+stale — the slot theorems evaluate the chain on the current state). -/
+def pivotsNotCached (c : ClassSchema) : Bool :=
+  c.pivotDecorators.length == c.pivots.length &&
+  c.pivotDecorators.all fun p => p.2 == ["custom_property"]
+
 def ClassSchema.WF (c : ClassSchema) : Bool :=
   pivotsCanonical c && firstLastCanonical c && pivotsTotal c && cloneComplete c && reattachComplete c &&
-  eqComplete c && autoClaimCanonical c && separatorsNonEmpty c
+  eqComplete c && autoClaimCanonical c && separatorsNonEmpty c && pivotsNotCached c
 
 end Autobean.Schema
